@@ -295,6 +295,59 @@ fn const_json<'tcx>(tcx: TyCtxt<'tcx>, env: TypingEnv<'tcx>, c: &mir::ConstOpera
                 if u.promoted.is_some() {
                     j.key("promoted");
                     j.bool(true);
+                    // what the promoted body is built from: named constants and aggregate variants
+                    if let Some(ld) = u.def.as_local() {
+                        let r = std::panic::catch_unwind(std::panic::AssertUnwindSafe(|| {
+                            let pm = tcx.promoted_mir(ld.to_def_id());
+                            let mut names: Vec<String> = Vec::new();
+                            if let Some(pb) = pm.get(u.promoted.unwrap()) {
+                                for bbd in pb.basic_blocks.iter() {
+                                    for st in bbd.statements.iter() {
+                                        if let StatementKind::Assign(b) = &st.kind {
+                                            let (_, rv) = &**b;
+                                            match rv {
+                                                Rvalue::Use(Operand::Constant(k), ..) => {
+                                                    if let mir::Const::Unevaluated(uu, _) = k.const_ {
+                                                        if uu.promoted.is_none() {
+                                                            names.push(path_of(tcx, uu.def));
+                                                        }
+                                                    } else {
+                                                        names.push(fix_crate(with_crate_prefix!(with_no_trimmed_paths!(format!("{}", k.const_)))));
+                                                    }
+                                                }
+                                                Rvalue::Aggregate(kind, _) => {
+                                                    if let AggregateKind::Adt(did, vidx, _, _, _) = &**kind {
+                                                        let adt = tcx.adt_def(*did);
+                                                        names.push(format!("{}::{}", path_of(tcx, *did), adt.variant(*vidx).name));
+                                                    }
+                                                }
+                                                _ => {}
+                                            }
+                                        }
+                                    }
+                                }
+                            }
+                            names
+                        }));
+                        if let Ok(names) = r {
+                            if !names.is_empty() {
+                                j.key("pbody");
+                                j.arr_begin();
+                                for n in names.iter().take(8) {
+                                    let mut n2 = n.clone();
+                                    if n2.len() > 160 {
+                                        let mut cut = 160;
+                                        while !n2.is_char_boundary(cut) {
+                                            cut -= 1;
+                                        }
+                                        n2.truncate(cut);
+                                    }
+                                    j.str(&n2);
+                                }
+                                j.arr_end();
+                            }
+                        }
+                    }
                     // evaluated value of the promoted constant (e.g. `&0_u8`)
                     let r = std::panic::catch_unwind(std::panic::AssertUnwindSafe(|| {
                         c.const_.eval(tcx, env, rustc_span::DUMMY_SP)
